@@ -5,6 +5,8 @@ PRELUDE = """
 pub struct App;
 pub trait HasName { fn name(&self) -> &str; }
 impl HasName for ::entrait::Impl<App> { fn name(&self) -> &str { "app" } }
+pub struct ConcN;
+impl HasName for ConcN { fn name(&self) -> &str { "conc" } }
 pub fn assert_output<R, F: ::core::future::Future<Output = R>>(_: &F) {}
 pub fn is_send<X: Send>(_: &X) {}
 """
@@ -31,13 +33,17 @@ def render(i, variant):
     tgen = "<G: Send + 'static>" if ret == "generic" else ""
     at = "#[::async_trait::async_trait]\n" if mode.endswith("-at") else ""
     items = []
-    if mode in ("fn", "mod"):
-        deps = "deps: &'a impl crate::HasName" if ret == "borrow-deps" else "deps: &D"
-        gens = f"<{lt}{'' if ret == 'borrow-deps' else 'D: Sync'}{g}>".replace("<, ", "<").replace(", >", ">")
+    if mode in ("fn", "mod", "fn-concrete"):
+        conc = mode == "fn-concrete"
+        if conc:
+            deps = "deps: &'a crate::ConcN" if ret == "borrow-deps" else "deps: &crate::ConcN"
+        else:
+            deps = "deps: &'a impl crate::HasName" if ret == "borrow-deps" else "deps: &D"
+        gens = f"<{lt}{'' if (ret == 'borrow-deps' or conc) else 'D: Sync'}{g}>".replace("<, ", "<").replace(", >", ">").replace("<'a, >", "<'a>")
         if gens == "<>":
             gens = ""
         f = f"async fn f{gens}({deps}{pdecl}){rdecl} {body(ret, rc)}"
-        if mode == "fn":
+        if mode in ("fn", "fn-concrete"):
             items.append(f"#[::entrait::entrait(pub T{ns})]\n{f}\n")
         else:
             items.append(f"#[::entrait::entrait(pub T{ns})]\npub mod m {{\n    use super::*;\n    pub {f}\n    pub async fn other<D: Sync>(deps: &D) -> u8 {{ 1 }}\n}}\n")
@@ -65,8 +71,9 @@ def render(i, variant):
             else:
                 items.append("impl Del<Self> for crate::App { type Target = X; }\n")
     src = "use crate::*;\n" + "\n".join(items)
+    recv = "crate::ConcN" if mode == "fn-concrete" else "::entrait::Impl<crate::App>"
     if variant == "base":
-        src += (f"pub fn w_output<'a>(app: &'a ::entrait::Impl<crate::App>, s: &'a str) {{ let fut = T::f(app{pargs}); "
+        src += (f"pub fn w_output<'a>(app: &'a {recv}, s: &'a str) {{ let fut = T::f(app{pargs}); "
                 f"assert_output::<{rty}, _>(&fut); let _ = ::vt::block_on(fut); }}\n")
     elif variant == "send":
         src += f"pub fn w_send<'a, A: T{targ} + Sync>(app: &'a A, s: &'a str) {{ let fut = app.f({pargs.lstrip(', ')}); is_send(&fut); }}\n"
